@@ -25,6 +25,15 @@ FUNCS = [
     ("htp/bstr.c", "bstr_util_mem_index_of_mem"),
     ("htp/htp_util.c", "htp_parse_positive_integer_whitespace"),
     ("htp/htp_util.c", "htp_parse_port"),
+    ("htp/htp_util.c", "htp_is_space"),
+    ("htp/htp_util.c", "htp_is_separator"),
+    ("htp/htp_util.c", "htp_is_token"),
+    ("htp/bstr.c", "bstr_util_cmp_mem_nocasenorzero"),
+    ("htp/bstr.c", "bstr_util_mem_index_of_mem_nocase"),
+    ("htp/bstr.c", "bstr_util_mem_index_of_mem_nocasenorzero"),
+    ("htp/htp_util.c", "htp_parse_chunked_length"),
+    ("htp/htp_util.c", "htp_treat_response_line_as_body"),
+    ("htp/htp_util.c", "htp_normalize_uri_path_inplace"),
 ]
 
 LIBC = {"tolower": "tolowerI", "toupper": "toupperI", "isspace": "isspaceI", "isdigit": "isdigitI"}
@@ -88,6 +97,10 @@ class Fn:
         self.uses_fuel = False
         self.nloops = 0
         self.defs = []
+        self.moving = set()
+        self.nonnull = False
+        self.effects = []
+        self.mem_fields = []
 
     def fresh(self):
         self.nv += 1
@@ -104,6 +117,9 @@ class Fn:
     def as_bool(self, e):
         if e.kind == "b":
             return e
+        if e.kind == "p":
+            self.nonnull = True
+            return E("true", "b")
         return E("(decide (%s ≠ 0))" % e.term, "b", e.binds)
 
     def as_int(self, e):
@@ -113,6 +129,7 @@ class Fn:
 
     def opt_bool(self, e):
         e = self.as_bool(e)
+        self.no_effects("a condition")
         return self.close(e, lambda t: "some %s" % t)
 
     def bytes_of(self, n):
@@ -123,6 +140,8 @@ class Fn:
         if k == "DeclRefExpr":
             v = self.var.get(n["referencedDecl"]["id"])
             if v and v[0] == "bytes":
+                if v[1] in self.moving:
+                    return E("(List.drop (Int.toNat s.%s_off) %s)" % (v[1], v[1]), "p")
                 return E(v[1], "p")
             raise Unsupported("pointer variable %s" % n["referencedDecl"].get("name"))
         if k == "BinaryOperator" and n["opcode"] == "+":
@@ -159,13 +178,22 @@ class Fn:
                 return E("(%s %s)" % (w, e.term), "i", e.binds, w)
             if ck == "IntegralToBoolean":
                 return self.as_bool(self.expr(inner))
+            if ck == "PointerToBoolean" and self.ptr_operand(inner):
+                self.nonnull = True
+                return E("true", "b")
             raise Unsupported("cast %s" % ck)
         if k == "DeclRefExpr":
             rd = n["referencedDecl"]
             v = self.var.get(rd["id"])
             if v and v[0] == "int":
                 return E("s.%s" % v[1], "i", rng=v[2])
+            if v and v[0] in ("ptr", "bytes", "mem", "bstr"):
+                return E("ptr", "p")
             raise Unsupported("reference to %s %s" % (rd.get("kind"), rd.get("name")))
+        if k == "UnaryOperator" and n.get("opcode") in ("++", "--") and n.get("isPostfix"):
+            f, w = self.lvalue(n["inner"][0])
+            self.effects.append("%s := (%s (s.%s %s 1))" % (f, w, f, "+" if n["opcode"] == "++" else "-"))
+            return E("s.%s" % f, "i", rng=w)
         if k == "UnaryOperator":
             op = n["opcode"]
             a = n["inner"][0]
@@ -177,6 +205,10 @@ class Fn:
                     v = self.var.get(t["referencedDecl"]["id"])
                     if v and v[0] == "ptr":
                         return E("s.%s" % v[1], "i", rng=v[2])
+                    if v and v[0] == "bytes":
+                        w = self.fresh()
+                        off = "s.%s_off" % v[1] if v[1] in self.moving else "0"
+                        return E(w, "i", [(w, "rd %s %s" % (v[1], off))], "u8")
                 raise Unsupported("dereference")
             if op == "-":
                 t = a
@@ -203,6 +235,11 @@ class Fn:
                 v = self.fresh()
                 fn = "andL" if op == "&&" else "orL"
                 return E(v, "b", [(v, "%s (%s) (%s)" % (fn, self.opt_bool(ea), self.opt_bool(eb)))])
+            if op in ("==", "!=") and (is_ptr(a["type"]) or is_ptr(b["type"])):
+                if self.ptr_operand(a) or self.ptr_operand(b):
+                    self.nonnull = True
+                    return E("false" if op == "==" else "true", "b")
+                raise Unsupported("pointer comparison")
             if op in ("<", ">", "<=", ">=", "==", "!="):
                 ea, eb = self.as_int(self.expr(a)), self.as_int(self.expr(b))
                 lop = {"<": "<", ">": ">", "<=": "≤", ">=": "≥", "==": "=", "!=": "≠"}[op]
@@ -234,15 +271,66 @@ class Fn:
             v = self.fresh()
             body = "if %s then %s else %s" % (ec.term, self.close(ea, lambda t: "some %s" % t), self.close(eb, lambda t: "some %s" % t))
             return E(v, "i", ec.binds + [(v, body)])
+        if k == "MemberExpr":
+            b = n["inner"][0]
+            while b["kind"] in ("ImplicitCastExpr", "ParenExpr") or (b["kind"] == "UnaryOperator" and b.get("opcode") == "*"):
+                b = b["inner"][0]
+            if b["kind"] == "DeclRefExpr":
+                v = self.var.get(b["referencedDecl"]["id"])
+                if v and v[0] == "bstr" and n.get("name") == "len":
+                    return E("s.%s_len" % v[1], "i", rng="u64")
+            raise Unsupported("member %s" % n.get("name"))
+        if k == "ArraySubscriptExpr" and self.mem_base(n["inner"][0]):
+            m = self.mem_base(n["inner"][0])
+            i = self.as_int(self.expr(n["inner"][1]))
+            v = self.fresh()
+            return E(v, "i", i.binds + [(v, "rdM s.%s %s" % (m, i.term))], wrap_of(n["type"]))
         if k == "ArraySubscriptExpr":
             base, idx = n["inner"]
-            p = self.bytes_of(base)
             i = self.as_int(self.expr(idx))
+            mv = self.moving_base(base)
             v = self.fresh()
+            if mv:
+                return E(v, "i", i.binds + [(v, "rd %s (s.%s_off + %s)" % (mv, mv, i.term))], "u8")
+            p = self.bytes_of(base)
             return E(v, "i", p.binds + i.binds + [(v, "rd %s %s" % (p.term, i.term))], "u8")
         if k == "CallExpr":
             return self.call(n, None)[0]
         raise Unsupported("expression %s" % k)
+
+    def mem_base(self, n):
+        """the state field of the mutable array behind the pointer expression `n` (None if it is not one)"""
+        while n["kind"] in ("ImplicitCastExpr", "CStyleCastExpr", "ParenExpr"):
+            n = n["inner"][0]
+        if n["kind"] == "DeclRefExpr":
+            v = self.var.get(n["referencedDecl"]["id"])
+            if v and v[0] == "mem":
+                return v[1]
+        return None
+
+    def moving_base(self, n):
+        """the byte parameter behind `n` when it is a plain reference to a pointer that the function moves"""
+        while n["kind"] in ("ImplicitCastExpr", "CStyleCastExpr", "ParenExpr"):
+            n = n["inner"][0]
+        if n["kind"] == "DeclRefExpr":
+            v = self.var.get(n["referencedDecl"]["id"])
+            if v and v[0] == "bytes" and v[1] in self.moving:
+                return v[1]
+        return None
+
+    def is_null(self, n):
+        while n["kind"] in ("ImplicitCastExpr", "CStyleCastExpr", "ParenExpr"):
+            n = n["inner"][0]
+        return (n["kind"] == "IntegerLiteral" and int(n["value"]) == 0 and False) or n["kind"] == "GNUNullExpr"
+
+    def ptr_operand(self, n):
+        t = n
+        while t["kind"] in ("ImplicitCastExpr", "CStyleCastExpr", "ParenExpr"):
+            t = t["inner"][0]
+        if t["kind"] == "DeclRefExpr":
+            v = self.var.get(t["referencedDecl"]["id"])
+            return bool(v and v[0] in ("bytes", "ptr", "mem", "bstr"))
+        return False
 
     @staticmethod
     def lit_rng(v):
@@ -311,7 +399,28 @@ class Fn:
         e = self.as_int(e)
         val = e.term if (e.rng and fits(e.rng, w)) else "(%s %s)" % (w, e.term)
         ups = ["%s := %s" % (field, val)] + ["%s := %s" % (c, t if fits(fw, cw) else "(%s %s)" % (cw, t)) for c, t, cw, fw in extra]
+        ups += self.take_effects()
         return "assignS (fun s => %s)" % self.close(e, lambda _: "some { s with %s }" % ", ".join(ups))
+
+    def take_effects(self):
+        e, self.effects = self.effects, []
+        return e
+
+    def no_effects(self, what):
+        if self.effects:
+            self.effects = []
+            raise Unsupported("side effect inside %s" % what)
+
+    def mem_store(self, lhs, rhs_node):
+        """`a[i] = e` on a mutable array"""
+        m = self.mem_base(lhs["inner"][0])
+        i = self.as_int(self.expr(lhs["inner"][1]))
+        e = self.as_int(self.expr(rhs_node))
+        w = wrap_of(lhs["type"])
+        val = e.term if (e.rng and fits(e.rng, w)) else "(%s %s)" % (w, e.term)
+        ups = ["%s := m'" % m] + self.take_effects()
+        both = E(val, "i", i.binds + e.binds)
+        return "assignS (fun s => %s)" % self.close(both, lambda t: "(wrM s.%s %s %s).bind fun m' => some { s with %s }" % (m, i.term, t, ", ".join(ups)))
 
     def lvalue(self, n):
         while n["kind"] in ("ParenExpr",):
@@ -353,10 +462,15 @@ class Fn:
         k = n["kind"]
         if k == "ParenExpr":
             return self.expr_stmt(n["inner"][0])
+        if k == "UnaryOperator" and n["opcode"] in ("++", "--") and self.moving_base(n["inner"][0]):
+            mv = self.moving_base(n["inner"][0])
+            return "assignS (fun s => some { s with %s_off := (s.%s_off %s 1) })" % (mv, mv, "+" if n["opcode"] == "++" else "-")
         if k == "UnaryOperator" and n["opcode"] in ("++", "--"):
             f, w = self.lvalue(n["inner"][0])
             op = "+" if n["opcode"] == "++" else "-"
             return "assignS (fun s => some { s with %s := (%s (s.%s %s 1)) })" % (f, w, f, op)
+        if k == "BinaryOperator" and n["opcode"] == "=" and n["inner"][0]["kind"] == "ArraySubscriptExpr" and self.mem_base(n["inner"][0]["inner"][0]):
+            return self.mem_store(n["inner"][0], n["inner"][1])
         if k == "BinaryOperator" and n["opcode"] == "=":
             f, w = self.lvalue(n["inner"][0])
             e, outs = self.rhs(n["inner"][1])
@@ -367,6 +481,7 @@ class Fn:
             if op not in ("+", "-", "*"):
                 raise Unsupported("compound %s" % n["opcode"])
             e = self.as_int(self.expr(n["inner"][1]))
+            self.no_effects("a compound assignment")
             return self.store(f, w, E("(s.%s %s %s)" % (f, op, e.term), "i", e.binds))
         if k == "BinaryOperator" and n["opcode"] == ",":
             return "seqS (%s) (%s)" % (self.expr_stmt(n["inner"][0]), self.expr_stmt(n["inner"][1]))
@@ -391,7 +506,7 @@ class Fn:
                 if d["kind"] != "VarDecl":
                     raise Unsupported("declaration %s" % d["kind"])
                 v = self.var[d["id"]]
-                if v[0] == "bytes":
+                if v[0] in ("bytes", "mem"):
                     continue
                 if "inner" in d and d["inner"]:
                     e, outs = self.rhs(d["inner"][0])
@@ -410,8 +525,21 @@ class Fn:
             return "iteS (fun s => %s)\n  (%s)\n  (%s)" % (c, a, b)
         if k in ("WhileStmt", "ForStmt"):
             return self.loop(n, "skipS")
+        if k == "SwitchStmt":
+            return self.switch(n)
+        if k == "ReturnStmt" and not n.get("inner"):
+            return "retS (fun s => some 0)"
+        if k == "CallExpr" and self.callee_name(n) == "bstr_adjust_len":
+            b = n["inner"][1]
+            while b["kind"] in ("ImplicitCastExpr", "ParenExpr"):
+                b = b["inner"][0]
+            v = self.var.get(b["referencedDecl"]["id"]) if b["kind"] == "DeclRefExpr" else None
+            if not (v and v[0] == "bstr"):
+                raise Unsupported("bstr_adjust_len on something that is not a bstr parameter")
+            return self.store("%s_len" % v[1], "u64", self.expr(n["inner"][2]))
         if k == "ReturnStmt":
             e = self.as_int(self.expr(n["inner"][0]))
+            self.no_effects("a return")
             w = self.ret_wrap
             val = (lambda t: "some %s" % t) if (e.rng and fits(e.rng, w)) else (lambda t: "some (%s %s)" % (w, t))
             return "retS (fun s => %s)" % self.close(e, val)
@@ -430,6 +558,62 @@ class Fn:
             c, t, cw, fw = outs[0]
             return self.store(c, cw, E(t, "i", e.binds, fw), outs[1:])
         raise Unsupported("statement %s" % k)
+
+    def switch(self, n):
+        cond, body = n["inner"][0], n["inner"][-1]
+        e = self.as_int(self.expr(cond))
+        if e.binds:
+            raise Unsupported("switch on an expression with reads")
+        groups, cur = [], None
+        for c in body.get("inner", []):
+            labels = []
+            while c["kind"] in ("CaseStmt", "DefaultStmt"):
+                if c["kind"] == "CaseStmt":
+                    lv = self.expr(c["inner"][0])
+                    labels.append(lv.term)
+                    c = c["inner"][1]
+                else:
+                    labels.append(None)
+                    c = c["inner"][0]
+            if labels:
+                cur = [labels, []]
+                groups.append(cur)
+            if cur is None:
+                raise Unsupported("statement before the first case")
+            cur[1].append(c)
+        out = "skipS"
+        dflt = None
+        arms = []
+        for labels, stmts in groups:
+            while stmts and stmts[-1]["kind"] == "BreakStmt":
+                stmts = stmts[:-1]
+                ended = True
+            else:
+                ended = bool(stmts) and stmts[-1]["kind"] == "ReturnStmt"
+            if not (stmts and stmts[-1]["kind"] == "ReturnStmt") and not ended:
+                raise Unsupported("switch group falls through")
+            if any(self.has_break(x) for x in stmts):
+                raise Unsupported("break nested inside a switch group")
+            code = self.stmt({"kind": "CompoundStmt", "inner": stmts})
+            if None in labels:
+                dflt = code
+                labels = [l for l in labels if l is not None]
+                if labels:
+                    arms.append((labels, code))
+            else:
+                arms.append((labels, code))
+        out = dflt or "skipS"
+        for labels, code in reversed(arms):
+            c = " || ".join("(decide (%s = %s))" % (e.term, l) for l in labels)
+            out = "iteS (fun s => some (%s))\n  (%s)\n  (%s)" % (c, code, out)
+        return out
+
+    def has_break(self, n):
+        if n.get("kind") == "BreakStmt":
+            return True
+        if n.get("kind") in ("WhileStmt", "ForStmt", "DoStmt", "SwitchStmt"):
+            return False
+        return any(isinstance(c, dict) and self.has_break(c) for c in n.get("inner", []) or [])
 
     def loop(self, n, rest):
         """register cond/body/incr/rest/loop definitions for one loop; -> the statement term (with the for-initialiser in front)"""
@@ -465,10 +649,55 @@ class Fn:
             if isinstance(c, dict):
                 yield from self.collect(c)
 
+    def bstr_ptr_of(self, vardecl):
+        """`unsigned char *p = bstr_ptr(s)` (the macro tests realptr): the bstr parameter whose content p aliases"""
+        found = []
+
+        def walk(n):
+            if n.get("kind") == "MemberExpr" and n.get("name") == "realptr":
+                b = n["inner"][0]
+                while b["kind"] in ("ImplicitCastExpr", "ParenExpr") or (b["kind"] == "UnaryOperator" and b.get("opcode") == "*"):
+                    b = b["inner"][0]
+                if b["kind"] == "DeclRefExpr":
+                    v = self.var.get(b["referencedDecl"]["id"])
+                    if v and v[0] == "bstr":
+                        found.append(v[1])
+            for c in n.get("inner", []) or []:
+                if isinstance(c, dict):
+                    walk(c)
+        walk(vardecl)
+        return found[0] if found and len(set(found)) == 1 else None
+
+    def find_written(self, n, out):
+        """ids of pointer variables that are written through (`p[i] = ...`)"""
+        if n.get("kind") == "BinaryOperator" and n.get("opcode") == "=" and n["inner"][0]["kind"] == "ArraySubscriptExpr":
+            t = n["inner"][0]["inner"][0]
+            while t["kind"] in ("ImplicitCastExpr", "CStyleCastExpr", "ParenExpr"):
+                t = t["inner"][0]
+            if t["kind"] == "DeclRefExpr":
+                out.add(t["referencedDecl"]["id"])
+        for c in n.get("inner", []) or []:
+            if isinstance(c, dict):
+                self.find_written(c, out)
+
+    def find_moving(self, n):
+        if n.get("kind") == "UnaryOperator" and n.get("opcode") in ("++", "--"):
+            t = n["inner"][0]
+            while t["kind"] in ("ParenExpr",):
+                t = t["inner"][0]
+            if t["kind"] == "DeclRefExpr":
+                v = self.var.get(t["referencedDecl"]["id"])
+                if v and v[0] == "bytes":
+                    self.moving.add(v[1])
+        for c in n.get("inner", []) or []:
+            if isinstance(c, dict):
+                self.find_moving(c)
+
     def translate(self):
         d = self.decl
         rt = d["type"]["qualType"].split("(")[0].strip()
-        self.ret_wrap = wrap_of({"qualType": rt})
+        self.is_void = rt == "void"
+        self.ret_wrap = "i32" if self.is_void else wrap_of({"qualType": rt})
         body = None
         self.decl_params = []
         used = set()
@@ -479,10 +708,22 @@ class Fn:
                 nm += "_"
             used.add(nm)
             return nm
+        written = set()
+        self.find_written(d, written)
         for c in d["inner"]:
             if c["kind"] == "ParmVarDecl":
                 nm = lean_name(c["name"])
-                if is_byte_ptr(c["type"]):
+                if ctype(c["type"]) in ("bstr *", "struct bstr_t *"):
+                    self.var[c["id"]] = ("bstr", nm)
+                    self.mem_fields.append(nm + "_mem")
+                    self.fields.append((nm + "_len", "u64"))
+                    self.int_params.append(nm + "_len")
+                    self.decl_params.append(("bstr", nm, None))
+                elif is_byte_ptr(c["type"]) and c["id"] in written:
+                    self.var[c["id"]] = ("mem", nm + "_mem")
+                    self.mem_fields.append(nm + "_mem")
+                    self.decl_params.append(("mem", nm, None))
+                elif is_byte_ptr(c["type"]):
                     self.var[c["id"]] = ("bytes", nm)
                     self.bytes_params.append(nm)
                     self.decl_params.append(("bytes", nm, None))
@@ -502,27 +743,39 @@ class Fn:
                 body = c
         if body is None:
             raise Unsupported("no body")
+        self.moving = set()
+        self.find_moving(body)
+        for mv in sorted(self.moving):
+            self.fields.append((mv + "_off", "i64"))
         for v in self.collect(body):
             if is_ptr(v["type"]):
                 # a local byte pointer must be a plain alias of a parameter
                 t = (v.get("inner") or [None])[0]
                 while t and t["kind"] in ("ImplicitCastExpr", "CStyleCastExpr", "ParenExpr"):
                     t = t["inner"][0]
-                if t and t["kind"] == "DeclRefExpr" and self.var.get(t["referencedDecl"]["id"], ("",))[0] == "bytes":
-                    self.var[v["id"]] = ("bytes", self.var[t["referencedDecl"]["id"]][1])
+                if t and t["kind"] == "DeclRefExpr" and self.var.get(t["referencedDecl"]["id"], ("",))[0] in ("bytes", "mem"):
+                    self.var[v["id"]] = self.var[t["referencedDecl"]["id"]]
+                    continue
+                b = self.bstr_ptr_of(v)
+                if b:
+                    self.var[v["id"]] = ("mem", b + "_mem")
                     continue
                 raise Unsupported("local pointer %s" % v["name"])
             nm = lean_name(v["name"])
             w = wrap_of(v["type"])
             self.var[v["id"]] = ("int", nm, w)
             self.fields.append((nm, w))
+        if self.is_void:     # falling off the end of a void function returns
+            body = dict(body, inner=list(body.get("inner", [])) + [{"kind": "ReturnStmt"}])
         code = self.stmt(body)
         st = "St_" + self.name
         out = ["/-- state of `%s`: parameters, locals and the integers behind pointer parameters -/" % self.name,
                "structure %s where" % st]
         for f, w in self.fields:
             out.append("  %s : Int := 0" % f)
-        if not self.fields:
+        for f in self.mem_fields:
+            out.append("  %s : List Int := []" % f)
+        if not self.fields and not self.mem_fields:
             out.append("  unit : Unit := ()")
         out.append("  deriving Repr, DecidableEq")
         out.append("")
@@ -533,10 +786,11 @@ class Fn:
         out.append("def %s_stmt %s : Stmt %s :=" % (self.name, bsig, st))
         out.append("  " + code.replace("\n", "\n  "))
         out.append("")
-        sig = " ".join(["(fuel : Nat)"] + ["(%s : Bytes)" % b for b in self.bytes_params] + ["(%s : Int)" % i for i in self.int_params])
+        sig = " ".join(["(fuel : Nat)"] + ["(%s : Bytes)" % b for b in self.bytes_params] + ["(%s : List Int)" % m for m in self.mem_fields]
+                       + ["(%s : Int)" % i for i in self.int_params])
         out.append("/-- `%s` (%s) -/" % (self.name, d["type"]["qualType"]))
         out.append("def %s %s : Option (Int × %s) :=" % (self.name, sig, st))
-        init = ", ".join("%s := %s" % (i, i) for i in self.int_params)
+        init = ", ".join("%s := %s" % (i, i) for i in self.int_params + self.mem_fields)
         out.append("  run (%s_stmt %s) { %s }" % (self.name, bargs, init))
         out.append("")
         return "\n".join(out)
